@@ -228,6 +228,20 @@ Concat(L, R, id) ==
       Mk(r, tag) == [c \in SetOf(oc) |-> IF c = id THEN tag ELSE r[c]]
   IN Tbl(oc, [i \in 1..Len(L.rows) |-> Mk(L.rows[i], 0)] \o [i \in 1..Len(R.rows) |-> Mk(R.rows[i], 1)])
 
+\* ---------------------------------------------------------------- convert_records (row records -> blocks)
+\* unpivot of the value columns vs = <<v1, v2>>: every row becomes one row per value column, keyed by the other
+\* columns (the record keys), with the control key kk = j and the value vv = the cell of the j-th value column
+Unpivot(t, vs) ==
+  LET K == Without(t.cols, vs)
+      oc == K \o <<"kk", "vv">>
+      n == Len(vs)
+  IN Tbl(oc, [q \in 1..(Len(t.rows) * n) |->
+                LET r == t.rows[((q - 1) \div n) + 1] j == ((q - 1) % n) + 1 IN
+                [c \in SetOf(oc) |-> IF c = "kk" THEN j ELSE IF c = "vv" THEN r[vs[j]] ELSE r[c]]])
+UnpivotOK(vs, cols) ==
+  /\ Len(vs) = 2 /\ NoDup(vs) /\ SetOf(vs) \subseteq SetOf(cols)
+  /\ ~Has(cols, "kk") /\ ~Has(cols, "vv") /\ Len(cols) > Len(vs)
+
 (***************************************************************************)
 (* The documented construction rules (C26): is a step with these arguments  *)
 (* well formed on a table with columns `cols`?                              *)
